@@ -287,6 +287,61 @@ def stage_numbers(chk, n):
     chk.stages["correspondence_numbers"] = {"schemas": len(schemas), "corpus": len(corpus), "agree": agree, "rejected_by_foreign_generator": rejected, "values_validated": checked_values}
 
 
+def gen_numeric_branch(rng, dialect):
+    s = {"type": "integer"}
+    keys = [k for k, p in [("minimum", 0.6), ("maximum", 0.6), ("exclusiveMinimum", 0.2), ("exclusiveMaximum", 0.2)] if rng.random() < p]
+    rng.shuffle(keys)
+    for k in keys:
+        if k.startswith("exclusive"):
+            s[k] = rng.choice([True, False]) if dialect == "bool" else rng.choice(POOL)
+        else:
+            s[k] = rng.choice(POOL)
+    return s
+
+
+def stage_anyof(chk, n):
+    """anyOf / oneOf over numeric branches: the numeric negatives of every branch vs anyof_negative_numbers; validity vs the whole schema."""
+    rng = chk.rng
+    schemas = [json.loads(p.read_text()) for p in sorted((core.VERIF / "corpus" / "C03").glob("anyof_*.json"))]
+    for _ in range(n):
+        dialect = rng.choice(["num", "num", "num", "bool"])
+        schemas.append({rng.choice(["anyOf", "oneOf"]): [gen_numeric_branch(rng, dialect) for _ in range(rng.choice([2, 2, 3]))]})
+    exprs = []
+    for s in schemas:
+        branches = next(iter(s.values()))
+        exprs.append(f"anyof_negative_numbers {clist([c_keys(b) for b in branches], '(list nkey)')} []")
+    model = core.coq_eval(IMPORTS, exprs)
+    agree = validated = 0
+    for s, m in zip(schemas, model):
+        key = next(iter(s))
+        values, end = iterate(s, "N", location="body")
+        impl = []
+        for value, _, desc, loc in values:
+            if desc in NEGDESC:
+                parts = loc.strip("/").split("/")
+                impl.append([int(parts[1]), canon_py(value), NEGDESC[desc], parts[2]])
+        mod = []
+        for i, (v, d, k) in unsym(m):
+            if d == "NNonMultiple":
+                continue
+            v = popt(v)
+            mod.append([i, [v[0], v[1]], d, CKEY[k[0]]])
+        chk.seen({"anyof": s}, True)
+        chk.count(f"anyof:{key}:{len(s[key])}")
+        if impl != mod or end != "Completed":
+            chk.disagree("cover_schema_iter (anyOf/oneOf numeric branches) vs anyof_negative_numbers", s, [impl, end], mod)
+            continue
+        agree += 1
+        for value, mode, desc, loc in values:
+            verdict = is_valid(s, value)
+            if verdict is None:
+                continue
+            validated += 1
+            if verdict:
+                chk.fail("value labelled negative conforms to its schema (valid for a sibling branch)", {"schema": s, "value": repr(value), "description": desc, "at": loc}, region="anyof_sibling")
+    chk.stages["correspondence_anyof"] = {"schemas": len(schemas), "agree": agree, "values_validated": validated}
+
+
 # ----------------------------------------------------------------------------------------
 # part 2: string lengths, array sizes
 # ----------------------------------------------------------------------------------------
@@ -300,13 +355,13 @@ FOREIGN_ERRORS = ("raises InternalError", "raises InvalidArgument", "raises Unsa
 
 def gen_str_schema(rng, big=False):
     s = {"type": "string"}
-    keys = [k for k, p in [("minLength", 0.65), ("maxLength", 0.65), ("pattern", 0.12), ("example", 0.08), ("default", 0.08), ("examples", 0.06)] if rng.random() < p]
+    keys = [k for k, p in [("minLength", 0.65), ("maxLength", 0.65), ("pattern", 0.0 if big else 0.12), ("example", 0.08), ("default", 0.08), ("examples", 0.06)] if rng.random() < p]
     rng.shuffle(keys)
     base = rng.choice(LENS[:9])
     for k in keys:
         if k in ("minLength", "maxLength"):
             s[k] = rng.choice([base, base + rng.choice([0, 1, 2, 5]), rng.choice(LENS if big else LENS[:9])])
-        elif k == "pattern" and not big:
+        elif k == "pattern":
             s[k] = rng.choice(["^[a-z]+$", "^a*$", "[0-9]"])
         elif k == "examples":
             s[k] = rng.choice([[], ["ab"], ["", "xyz"]])
@@ -353,7 +408,7 @@ def stage_lengths(chk, n):
     rng = chk.rng
     schemas = [json.loads(p.read_text()) for p in sorted((core.VERIF / "corpus" / "C03").glob("str_*.json"))]
     schemas += [gen_str_schema(rng) for _ in range(n)]
-    schemas += [gen_str_schema(rng, big=True) for _ in range(max(3, n // 100))]  # around BUFFER_SIZE: each draw costs seconds
+    schemas += [gen_str_schema(rng, big=True) for _ in range(max(2, n // 250))]  # around BUFFER_SIZE: each draw costs seconds
     model = core.coq_eval(IMPORTS, [f"(string_plan {c_str_schema(s)}, range_ok (s_min {c_str_schema(s)}) (s_max {c_str_schema(s)}))" for s in schemas])
     agree = foreign_failed = validated = 0
     for s, (plan, rng_ok) in zip(schemas, model):
@@ -818,7 +873,8 @@ def compare_operation(chk, ctx, val, stats):
     chk.seen({"operation": desc}, nontrivial)
     chk.count(f"operation:modes={desc['modes']}")
     chk.count(f"operation:params={len(desc['params'])},bodies={len(desc['bodies'])}")
-    if canon_i != canon_m or iend != mend:
+    agree = canon_i == canon_m and iend == mend
+    if not agree:
         first = next((i for i, (a, b) in enumerate(zip(canon_i, canon_m)) if a != b), min(len(canon_i), len(canon_m)))
         chk.disagree(
             "_iter_coverage_cases label tuples vs coverage_cases",
@@ -826,16 +882,19 @@ def compare_operation(chk, ctx, val, stats):
             {"n": len(canon_i), "end": iend, "first_difference_at": first, "there": canon_i[first : first + 2]},
             {"n": len(canon_m), "end": mend, "there": canon_m[first : first + 2]},
         )
-        return
-    stats["cases"] += len(icases)
+        if [c["sig"] for c in icases] != [c["sig"] for c in mcases]:
+            return  # not even the same cases: nothing to line the oracle up with
+    else:
+        stats["cases"] += len(icases)
     if iend != "Completed":
         chk.count("operation:" + iend)
     for ic, mc in zip(icases, mcases):
-        why = content_matches(operation, mc, ic, names, medias, values)
-        if why is not None:
-            chk.disagree("content of a case vs the parts of the model case", {"operation": desc, "case": mc["sig"]}, why, mc["parts"])
-            return
-        # oracle: case label vs the labels of the parts it carries
+        if agree:
+            why = content_matches(operation, mc, ic, names, medias, values)
+            if why is not None:
+                chk.disagree("content of a case vs the parts of the model case", {"operation": desc, "case": mc["sig"]}, why, mc["parts"])
+                return
+        # oracle: case label (of the implementation) vs the labels of the parts the case carries
         structural = mc["sig"][0] in ("method", "duplicate", "missing")
         expected_negative = structural or any(p["mode"] == "N" for p in mc["parts"])
         stats["label_checks"] += 1
@@ -936,6 +995,9 @@ def witness_fails(w) -> bool:
     if kind == "positive_value":
         values, _ = iterate(w["schema"], "P", location="body")
         return any(v == w["value"] and type(v) is type(w["value"]) and m == "P" and is_valid(w["schema"], v) is False for v, m, _, _ in values)
+    if kind == "negative_value":
+        values, _ = iterate(w["schema"], "N", location="body")
+        return any(v == w["value"] and type(v) is type(w["value"]) and m == "N" and is_valid(w["schema"], v) is True for v, m, _, _ in values)
     if kind == "case":
         operation = build_operation(w["operation"])
         icases, _ = impl_cases(operation, w["operation"])
@@ -973,11 +1035,12 @@ def run(chk: core.Check):
         "3 generation modes; non-trivial = at least one bound / at least 3 cases; distinct by canonical JSON"
     )
     chk.proofs(["Common", "C03"])
-    k = 10 if chk.broken else 1
-    stage_numbers(chk, (4000 if quick else 40000) * (1 if quick else 1))
-    stage_lengths(chk, 500 if quick else 5000)
+    k = 10 if chk.broken else 1  # a broken proof obligation: search ten times harder for a concrete failing input
+    stage_numbers(chk, 2500 if quick else 40000)
+    stage_anyof(chk, 300 if quick else 3000)
+    stage_lengths(chk, 400 if quick else 5000)
     stage_sizes(chk, 250 if quick else 2500)
-    stage_cases(chk, (260 if quick else 2600) * (k if quick else 1))
+    stage_cases(chk, (220 if quick else 2600) * (k if quick else 1))
     stage_composite(chk, (150 if quick else 1500) * k)
     for f in chk.findings:
         chk.known(f, witness_fails(f["witness"]))
